@@ -42,7 +42,10 @@ RULE = ('lookup: a FRESH interpreter per case (module defaults are read from the
 TRUSTED = ['os.getenv / process environment; inspect.stack()[1].filename = the file that calls deep.start',
            'float(text) for the interval texts used; Py.parseInt for integer texts in the model',
            'str.startswith, str.split for one-character separators']
-ASSUMPTIONS = ['code-given IN_APP_INCLUDE / IN_APP_EXCLUDE are lists of str (the documented comma separated str form is '
+ASSUMPTIONS = ['names the object has of its own are its methods, properties and the attributes __init__ sets (attributes set '
+               'later are own too: outside the generated objects); property getters return, except in the labelled '
+               'ga/own-getter-* stream',
+               'code-given IN_APP_INCLUDE / IN_APP_EXCLUDE are lists of str (the documented comma separated str form is '
                'the known finding C19/include-string-in-code)',
                'with include/exclude from the environment the interpreter prefix (sys.exec_prefix) is an additional '
                'exclude prefix, as deep.config appends it; a code-given exclude list is used as given',
@@ -464,8 +467,33 @@ def g_ga(rng):
         custom.append([k, v])
     for k in rng.sample(GA_ENV_KEYS, rng.choice([0, 1, 2, 3])):
         env['DEEP_' + k] = rng.choice(TEXTS)
-    names = rng.sample(pool, min(len(pool), 8)) + [k for k, _ in custom][:4] + rng.sample(GA_ENV_KEYS, 2)
+    names = rng.sample(pool, min(len(pool), 8)) + [k for k, _ in custom][:4] + rng.sample(GA_ENV_KEYS, 2) + \
+        rng.sample(['ConfigService', 'os', 'sys'], 1)
     return {'kind': 'ga', 'custom': custom, 'custom_none': rng.random() < 0.2, 'env': env, 'names': names}
+
+
+OWN_GETTERS = ['tracepoint_logger', 'has_metric_processor', 'has_span_processor']   # properties that walk the plugin list
+OWNFAULT = 'C19/own-getter-attributeerror-falls-through'
+
+
+def g_ga_fault(rng):
+    """separate labelled stream (finding candidate OWNFAULT): own PROPERTIES whose getter raises — AttributeError
+    (the code takes it for 'no such attribute' and resolves the name from the code dict / DEEP_<name>) or another
+    exception (propagates)"""
+    c = g_ga(rng)
+    kind = rng.choice(['attr', 'attr', 'other'])
+    extra = []
+    for n in rng.sample(OWN_GETTERS, rng.choice([1, 2, 3])):
+        r = rng.random()
+        if r < 0.6:
+            extra.append([n, g_callable(rng, g_cval(rng, 1), may_raise=False) if r < 0.2 else {'s': 'CODE ' + n}])
+        elif r < 0.8:
+            c['env']['DEEP_' + n] = 'ENV ' + n
+    c['custom'] = [kv for kv in c['custom'] if kv[0] not in OWN_GETTERS] + extra
+    c['names'] = OWN_GETTERS + c['names'][:6]
+    c['custom_none'] = False
+    c['own_fault'] = kind
+    return c
 
 
 USE_VALUES = {
@@ -531,6 +559,8 @@ def gen(rng, tier):
             yield g_frame(rng, d30=True)
         elif k % 50 == 13:
             yield g_frame(rng, pxasym=True)
+        elif k % 50 == 34:
+            yield g_ga_fault(rng)
         elif k % 10 == 4:
             yield g_ga(rng)
         elif k % 40 == 19:
@@ -598,7 +628,11 @@ def corpus_ga():
 
 
 def known_replays():
-    return [(D30, 'IN_APP_INCLUDE="/x,/y" given in code is iterated character by character: "/" matches every '
+    return [(OWNFAULT, 'the getter of the own property tracepoint_logger raises AttributeError: __getattribute__ takes it for '
+             '"no such attribute" and hands out the code-dict entry of that name instead of failing',
+             {'kind': 'ga', 'custom': [['tracepoint_logger', {'s': 'CODE VALUE'}]], 'custom_none': False, 'env': {},
+              'names': ['tracepoint_logger'], 'own_fault': 'attr'}),
+            (D30, 'IN_APP_INCLUDE="/x,/y" given in code is iterated character by character: "/" matches every '
              'absolute path, /lib/z.py becomes an application frame',
              {'kind': 'frame', 'custom': [['APP_ROOT', {'s': '/app'}], ['IN_APP_INCLUDE', {'s': '/x,/y'}]], 'env': {},
               'files': ['/lib/z.py'], 'd30': True}),
@@ -623,6 +657,9 @@ def known_finding(case, obs):
         return D30
     if case['kind'] == 'frame' and case.get('pxasym') and code_exclude_without_px(case):
         return PXASYM
+    if case['kind'] == 'ga' and case.get('own_fault') == 'attr' and any(
+            k in OWN_GETTERS and v is not None for k, v in case['custom']):
+        return OWNFAULT
     return None
 
 
@@ -711,14 +748,15 @@ def run_timer(case):
             t.stop()
 
 
-GA_OWN = OWN + ['_plugins', '_resource']
+GA_OWN = OWN + ['_plugins', '_resource'] + ['tracepoint_logger', 'has_metric_processor', 'has_span_processor']
+GA_MODULE_ATTRS = ['ConfigService', 'os', 'sys']     # attributes of the deep.config module object, like __name__ / __file__
 
 
 def run_ga(case):
     from deep.config import ConfigService
     from deep.config.tracepoint_config import TracepointConfigService
     import logging as pylog
-    keys = ['DEEP_' + k for k in GA_ENV_KEYS]
+    keys = ['DEEP_' + k for k in GA_ENV_KEYS + OWN_GETTERS]
     with _env_lock:
         saved = {k: os.environ.get(k) for k in keys}
         pylog.disable(pylog.CRITICAL)
@@ -730,6 +768,13 @@ def run_ga(case):
             cfg = ConfigService(custom, tracepoints=TracepointConfigService())
             if case['custom_none']:
                 object.__setattr__(cfg, '_ConfigService__custom', None)
+            if case.get('own_fault'):
+                exc = AttributeError if case['own_fault'] == 'attr' else ValueError
+
+                class FailingPlugins(list):
+                    def __iter__(self):
+                        raise exc('walking the plugin list failed inside the property getter')
+                object.__setattr__(cfg, '_plugins', FailingPlugins())
             vals = []
             for n in case['names']:
                 try:
@@ -1124,6 +1169,11 @@ def oracle_ga(case, obs):
     v = []
     for name, got in zip(case['names'], obs['values']):
         exp = 'own' if name in GA_OWN else ref_lookup(view, name, px)
+        if name in GA_MODULE_ATTRS:
+            # not settings but attributes of the module object (as ref_lookup treats __name__ / __file__): a code value
+            # still wins, else the module's own (opaque; the model says what: the class is called)
+            cvm = dict((a, b) for a, b in view['custom']).get(name)
+            exp = called(cvm) if cvm is not None else 'own'
         if exp == 'own':
             cv = dict((a, b) for a, b in view['custom']).get(name)
             if cv is not None and norm(got) == norm(called(cv)) and norm(got) not in (None, {'l': []}, {'o': '*'}):
@@ -1231,6 +1281,7 @@ def model_request(case, obs):
     if k == 'ga':
         return {'kind': 'ga', 'px': px, 'names': case['names'],
                 'env': pairs(dict(obs.get('proc_env', {}), **case['env'])),
+                'own_fault': {'names': OWN_GETTERS, 'kind': case['own_fault']} if case.get('own_fault') else None,
                 'custom': None if case['custom_none'] else
                 [[kk, model_cval(v) if v is not None else None] for kk, v in case['custom']]}
     custom = {}
@@ -1343,6 +1394,8 @@ def label(case, obs):
         return 'seq/%d' % len(case['steps'])
     if 'raised' in obs:
         return k + '/raised'
+    if k == 'ga' and case.get('own_fault'):
+        return 'ga/own-getter-' + ('AttributeError' if case['own_fault'] == 'attr' else 'other-exception')
     if k == 'ga':
         return 'ga/' + ('none-dict' if case['custom_none'] else 'dict') + ('+env' if case['env'] else '')
     if k == 'frame':
